@@ -3,6 +3,7 @@ CONSTANT Names = {"x", "y"}
 CONSTANT NameSeq <- Seq2
 CONSTANT FShapes <- Trees3
 CONSTANT FFlags <- F7
+CONSTANT Mode = "all"
 CONSTANT FModFlags <- FMod
 CONSTANT MaxScopes = 4
 CONSTANT MaxDepth = 3
